@@ -198,12 +198,12 @@ Proof. exact (conj mech_coded_nil (conj mech_coded_ntlm mech_coded_kerberos)). Q
 Example C08_ex_negotiate :
   exists msg, create_negotiate [99; 111; 114; 112] [119; 115; 49] false = Ok msg /\ lenN msg = 47
     /\ sub msg 40 7 = [67; 79; 82; 80; 87; 83; 49].       (* "CORP" "WS1" *)
-Proof. eexists. repeat split; vm_compute; reflexivity. Qed.
+Proof. eexists. split; [vm_compute; reflexivity|]. split; vm_compute; reflexivity. Qed.
 
 Example C08_ex_authenticate :                      (* Unicode | VERSION, user "é" (UTF-8 c3 a9) *)
   exists msg, create_authenticate 33554433 (repeatN 7 24) (repeatN 9 24) [195; 169] [100] [119] = Ok msg
     /\ sub msg 136 6 = [68; 0; 233; 0; 87; 0].             (* "D" "é" "W" in UTF-16LE *)
-Proof. eexists. split; vm_compute; reflexivity. Qed.
+Proof. eexists. split; [vm_compute; reflexivity|]. vm_compute. reflexivity. Qed.
 
 Example C08_ex_challenge :
   let data := challenge_encode 33554437 [1; 2; 3; 4; 5; 6; 7; 8] [83; 0] (av_encode [(2, [68; 0]); (2, [69; 0])])
@@ -215,7 +215,7 @@ Proof.
   cbn zeta. split.
   - apply challenge_encode_spec; try (vm_compute; reflexivity); try (apply wf_bytesb_spec; reflexivity); lia.
   - eexists. split; [vm_compute; reflexivity|]. split; [reflexivity|]. split; [reflexivity|].
-    eexists. split; vm_compute; reflexivity.
+    eexists. split; [vm_compute; reflexivity|]. vm_compute. reflexivity.
 Qed.
 
 Example C08_ex_av_ok : Forall av_ok [(2, [68; 0]); (2, [69; 0]); (7, [1; 2; 3; 4; 5; 6; 7; 8])].
@@ -223,12 +223,12 @@ Proof. repeat constructor. Qed.
 
 Example C08_ex_roundtrip_200 :                      (* a long-form length: 200-byte token *)
   exists w, create_neg_token_init (Some (repeatN 5 200)) = Ok w /\ extract_ntlm_token w = Ok (repeatN 5 200)
-    /\ firstn 3 w = [96; 129; 236].
-Proof. eexists. repeat split; vm_compute; reflexivity. Qed.
+    /\ firstn 3 w = [96; 129; 233].
+Proof. eexists. split; [vm_compute; reflexivity|]. split; vm_compute; reflexivity. Qed.
 
 Example C08_ex_empty_token :
   exists w, create_neg_token_init (Some []) = Ok w /\ extract_ntlm_token w = Ok [].
-Proof. eexists. split; vm_compute; reflexivity. Qed.
+Proof. eexists. split; [vm_compute; reflexivity|]. vm_compute. reflexivity. Qed.
 
 Example C08_ex_header_skip : extract_ntlm_token [96; 255] = Err /\ parse_neg_token_resp [96; 129] = Err.
 Proof. split; vm_compute; reflexivity. Qed.
@@ -236,7 +236,7 @@ Proof. split; vm_compute; reflexivity. Qed.
 Example C08_ex_challenge_wrap :                     (* TargetNameBufferOffset 0xFFFFFFF0, Len 0x10 *)
   exists c, parse_challenge ([78; 84; 76; 77; 83; 83; 80; 0; 2; 0; 0; 0; 16; 0; 16; 0; 240; 255; 255; 255]
                              ++ repeatN 0 36) = Ok c /\ ch_target_name c = [].
-Proof. eexists. split; vm_compute; reflexivity. Qed.
+Proof. eexists. split; [vm_compute; reflexivity|]. vm_compute. reflexivity. Qed.
 
 Example C08_ex_der_len : der_len 127 = [127] /\ der_len 128 = [129; 128] /\ der_len 65536 = [131; 1; 0; 0].
 Proof. repeat split; vm_compute; reflexivity. Qed.
